@@ -99,6 +99,24 @@ claim("C13", "Proof of the byte layout of the AAD every sealed token is bound to
       "AEAD idealisation (open succeeds only under the AAD it was sealed with) connects AAD separation to token refusal; it is not an obligation here. The lemmas are stated over byte strings of the layout the postcondition proves.",
       ["domains containing a NUL byte (the layout is then not injective: (\"a\\x00b\",\"c\") and (\"a\",\"b\\x00c\") share an AAD; the framework's own authenticators use constant NUL-free domains)", "sticky-session tokens share the cursor prefix and are separated from cursors only by the version byte and the plaintext format", "the open/seal call sites (which AAD is passed where) beyond the two prefix wrappers"])
 
+claim("C04", "Proof (pipe transport) of the log filter (ClientLog appends a message at or above the requested level after everything emitted before, a lower one changes nothing; logLevelPriority's table; drainLogs hands over everything), of the log / exception batch shape (zero rows, level and message keys, request id echoed whenever one was sent), that WriteUnaryResponse writes every log in slice order then the result batch, that WriteVoidResponse answers with an empty-schema batch, and over every path of serveUnary that the logs are collected after the handler returned or panicked, that a failed call answers with those logs then exactly one exception batch and no result, and a successful one with the same logs, the declared result schema and the request id.",
+      "the handler runs inside a recovering function literal (serveUnary$1): what it logs before panicking is in callCtx.logs when the literal is left (Go semantics of recover).",
+      ["HTTP unary path (handleUnary)", "the decoded result value equals what the handler returned (Arrow serialization, see C08)", "the ghost order of batches on the wire beyond call order in the code"])
+claim("C12", "Proof that openToken hands plaintext to decompression and gob decoding only after the AEAD opened the ciphertext, under the key derived from the server's whole token key (normalizeTokenKey: a 32-byte key as is, every other key hashed as a whole, never truncated) and the caller-supplied AAD, with the version byte checked and nonce/ciphertext sliced from the fixed offsets; that every authenticity failure is the one uniform RuntimeError; that the cursor is opened under the cursor version and the presenting identity's AAD, the call token likewise; and over every path of handleStreamExchange that the rehydrate callback, dispatch hook, sticky-session resolution, cancel, producer and exchange continuations are reached only after the cursor was opened AND its call resolved.",
+      "AEAD idealisation (Open succeeds only for an unaltered ciphertext sealed under the same key, nonce and AAD); SHA-256 collision freedom for keys that are not 32 bytes.",
+      ["base64 decoding variants", "sealToken side (that what is sealed can be opened)", "the sticky-session token path"])
+claim("C16", "Proof that stripFrameworkTickMetadata returns no framework key (cursor token, call token, cancel) with keys and values paired (loop invariant over a constant key set that is itself checked: built once by the package initialiser, never updated); that the exchange handler is invoked with exactly this turn's context, input and collector and an InputMetadata that came out of that strip applied to the request's own metadata; that a fresh cursor (minted for this call id, state and identity) is merged into the data batch only, and only on a turn that did not fail; that a cancel turn answers 200 with nothing written to the stream and no cursor, doing nothing but the cancel hook (inside a recover) and the empty response.",
+      "", ["exactly-one-data-batch as a count over the output (OutputCollector invariant, C06)", "producer continuation metadata", "the externalized-input path of handleStreamExchange is covered by the replay witnesses only"])
+claim("C20", "Proof that resolveRequestID echoes the trimmed caller id exactly when it is non-empty and at most 128 bytes and otherwise returns 16 lower-case hex characters rendered from 8 random bytes; over every path of ServeHTTP that the X-Request-ID header is set before any other call can answer and that, once the serve-start hook and page initialisation have run, the capability headers are set before anything is routed; that addCapabilityHeaders always sets the supported-encodings header (to the rendered producible set) and the externalization header; and that the CORS expose list contains every header the configuration can emit (fixed entries and each conditional one under the condition it is emitted under, including VGI-Auth-Proxy-Required whenever the configuration depends on a proxy).",
+      "hex.EncodeToString yields lower-case hex of twice the length (assumed); membership in the expose list is stated over its first 24 entries.",
+      ["headers set by route handlers after dispatch", "VGI-Echo-* names", "that every exit path of every route goes through ServeHTTP (net/http)"])
+claim("C38", "Proof that isLowerHex is exact, that currentTraceContext returns both ids well formed (32 / 16 lower-case hex) or both empty whatever the provider returns or if it panics (the deferred literal has its own contract), that stream ids are 32 lower-case hex characters, that the default claim redaction leaves nothing under a sensitive key name but the placeholder, keeps other values and invents no key, and that the default policy runs exactly when no redactor is installed; a regex lemma pins the redaction pattern's (case-insensitive, unanchored) language to the reference pattern.",
+      "claimSensitive is the language of the reference pattern; map iteration is modelled per iteration (any key), so the redaction statement is a safety statement about what is in the output.",
+      ["record assembly in OnDispatchEnd (required fields, types, payload marker)", "byte counts of the egress recorder", "that every claim key is present in the output (map-range completeness)"])
+claim("C39", "Proof of the sampler's decision table (rate 1 keeps everything, error records are always kept, a kept non-error record carries the rate, a dropped record is untouched), of its key choice (non-empty stream id, else non-empty request id), that enqueue performs no blocking channel operation, and that it accounts for every record: handed to the writer carrying the number dropped since the last one that got through (counter restarts), or counted as dropped and carrying no count; nothing after close.",
+      "sync.Mutex atomicity; the select is modelled as a nondeterministic choice between the ready send and the default.",
+      ["that two records with the same key get the same decision (FNV hash determinism is not modelled)", "the writer goroutine and close/drain (goroutines are outside the engine)", "a trailing run of drops"])
+
 # properties not claimed: reason
 NOT_APPLICABLE = {
     "C11": "relational two-run equivalence between the pipe loop and the HTTP handlers routed through gob, AEAD and Arrow IPC; contracts here are single-run and per function",
